@@ -1,6 +1,8 @@
 (* driver.ml -- reads one s-expression per line: (OP ARG); prints Model.run_case's result.
    Atoms are decimal integers (|x| < 2^62, via OCaml int) or, for big integers, [-]x<hex digits> which are converted to / from the
    extracted binary positive bit by bit (no arithmetic outside the model).  Z stays the extracted datatype. *)
+module S = Stdlib.String
+type ostring = Stdlib.String.t
 open Model
 
 let rec pos_of_int n = if n = 1 then XH else if n land 1 = 0 then XO (pos_of_int (n lsr 1)) else XI (pos_of_int (n lsr 1))
@@ -9,23 +11,23 @@ let rec int_of_pos = function XH -> 1 | XO p -> 2 * int_of_pos p | XI p -> 2 * i
 let int_of_z = function Z0 -> 0 | Zpos p -> int_of_pos p | Zneg p -> - (int_of_pos p)
 
 (* hex <-> positive, most significant digit first *)
-let pos_of_hex (h : string) : positive option =
+let pos_of_hex (h : ostring) : positive option =
   let acc = ref None in
-  String.iter (fun c ->
+  S.iter (fun c ->
     let d = if c >= '0' && c <= '9' then Char.code c - 48 else if c >= 'a' && c <= 'f' then Char.code c - 87 else failwith "hex" in
     for b = 3 downto 0 do
       let bit = (d lsr b) land 1 in
       acc := (match !acc with None -> if bit = 1 then Some XH else None | Some p -> Some (if bit = 1 then XI p else XO p))
     done) h;
   !acc
-let z_of_atom (a : string) : z =
-  let neg = String.length a > 0 && a.[0] = '-' in
-  let b = if neg then String.sub a 1 (String.length a - 1) else a in
-  if String.length b > 0 && b.[0] = 'x' then
-    (match pos_of_hex (String.sub b 1 (String.length b - 1)) with None -> Z0 | Some p -> if neg then Zneg p else Zpos p)
+let z_of_atom (a : ostring) : z =
+  let neg = S.length a > 0 && a.[0] = '-' in
+  let b = if neg then S.sub a 1 (S.length a - 1) else a in
+  if S.length b > 0 && b.[0] = 'x' then
+    (match pos_of_hex (S.sub b 1 (S.length b - 1)) with None -> Z0 | Some p -> if neg then Zneg p else Zpos p)
   else z_of_int (int_of_string a)
 let rec pos_bits = function XH -> [1] | XO p -> 0 :: pos_bits p | XI p -> 1 :: pos_bits p   (* least significant first *)
-let hex_of_pos (p : positive) : string =
+let hex_of_pos (p : positive) : ostring =
   let bits = Array.of_list (pos_bits p) in
   let n = Array.length bits in
   let nd = (n + 3) / 4 in
@@ -42,8 +44,8 @@ let string_of_z = function
   | Zpos p -> if pos_len p <= 61 then string_of_int (int_of_pos p) else "x" ^ hex_of_pos p
   | Zneg p -> if pos_len p <= 61 then string_of_int (- (int_of_pos p)) else "-x" ^ hex_of_pos p
 
-let parse (s : string) : sx =
-  let n = String.length s in
+let parse (s : ostring) : sx =
+  let n = S.length s in
   let i = ref 0 in
   let rec skip () = if !i < n && (s.[!i] = ' ' || s.[!i] = '\t' || s.[!i] = '\r') then (incr i; skip ()) in
   let rec item () : sx =
@@ -61,7 +63,7 @@ let parse (s : string) : sx =
     end else begin
       let j = !i in
       while !i < n && s.[!i] <> ' ' && s.[!i] <> ')' && s.[!i] <> '(' do incr i done;
-      A (z_of_atom (String.sub s j (!i - j)))
+      A (z_of_atom (S.sub s j (!i - j)))
     end in
   item ()
 
@@ -76,7 +78,7 @@ let () =
   (try
     while true do
       let line = input_line stdin in
-      if String.length line > 0 then begin
+      if S.length line > 0 then begin
         Buffer.clear buf;
         (try print buf (run_case (parse line))
          with Stack_overflow -> Buffer.add_string buf "(-2 0)"
